@@ -284,6 +284,31 @@ def leftover_empty_block(rng):
     return {"isa": "X64", "ff": "ELF", "text": text, "externs": ["ext_a"], "edits": edits}
 
 
+def chain_of_whole_deletions(rng):
+    """adjacent blocks deleted whole in one batch, the first carrying several labels: they all slide on through the
+    reference cache (held indirectly) while the later blocks of the chain are judged and removed"""
+    n = rng.randint(2, 4)
+    text = []
+    for i in range(n + 1):
+        syms = [{"name": "L%d" % i, "at_end": False}]
+        if i == 0 or rng.random() < 0.3:
+            syms += [{"name": "A%d_%d" % (i, j), "at_end": rng.random() < 0.2} for j in range(rng.randint(1, 3))]
+        if i > 0 and rng.random() < 0.5:
+            syms = []
+        kind = "code" if i < n or rng.random() < 0.7 else "data"
+        d = ({"kind": "code", "func": 0, "insns": [["nop"]] * rng.randint(1, 2), "syms": syms} if kind == "code"
+             else {"kind": "data", "bytes": [1, 2, 3, 4], "syms": syms})
+        text.append(d)
+    text[0]["entry"] = True
+    if text[-1]["kind"] == "code":
+        text[-1]["insns"].append(["ret"])
+    edits = [{"op": "delete", "block": i, "off": 0, "len": emodify.block_size(text[i])} for i in range(n)]
+    if rng.random() < 0.3:
+        edits.pop(rng.randrange(1, n))            # a survivor inside the chain
+    rng.shuffle(edits)
+    return {"isa": "X64", "ff": "ELF", "text": text, "externs": ["ext_a"], "edits": edits}
+
+
 def labels_between_patches(rng):
     """an earlier patch of the batch defines (global) labels that a later patch of the same block branches to; the
     labels sit at the end of the first patch, so they are retargeted through the cache when its empty block goes"""
@@ -305,6 +330,8 @@ def run(ctx):
         check_case(ctx, leftover_empty_block(ctx.rng))
     for _ in range(ctx.budget(30, 600)):
         check_case(ctx, labels_between_patches(ctx.rng))
+    for _ in range(ctx.budget(40, 800)):
+        check_case(ctx, chain_of_whole_deletions(ctx.rng))
     for c in LE.load_corpus():
         check_case(ctx, c)
     for n in range(ctx.budget(600, 15000)):
